@@ -23,9 +23,9 @@
      Validate first (signatures, fee, OLT currency, address / id / opinion syntax); none of these checks looks at
      the governance state, and the model's operations are the ones that pass them (a vote by a non-validator is
      refused by Validate and by the handler alike).  The handlers themselves refuse non-positive fund / withdraw amounts.
-   * Go [float64]: ResultSoFar compares yes/total and 1-no/total with pass/100 in float64; the
-     model compares exactly ([yes*100 >= pass*total], [(total-no)*100 < pass*total]).  Exact for
-     total power < 2^45 and [(total-no)*100 <> pass*total] (tally_float_guard).  The shares of the
+   * ResultSoFar decides in exact integer arithmetic since /repo 6d9c57c ([yes*100 >= pass*total],
+     [(total-no)*100 < pass*total]), exactly like the model's [tally]; before, it compared in float64 and got the
+     boundary (total-no)*100 = pass*total wrong ([tally_float_guard] describes the region where both agreed).  The shares of the
      fund distribution are [int64(percentage*10000)], computed by the harness with the same Go
      expression and passed in as integers.
    * int64 wrap-around of heights / power sums is not modelled (heights and powers < 2^52). *)
@@ -108,8 +108,9 @@ Inductive op :=
 | OAdjust (a : N) (d : Z).   (* balance movement of a tracked account caused by a non-governance transaction *)
 
 Record txop := mkTx { t_op : op; t_env : env; t_payer : N; t_fee : Z;
-  t_cur : N   (* currency named in the transaction's amount (create / fund / withdraw): 0 = OLT, anything else = another
-                 registered currency, an unknown name or the empty string *) }.
+  t_cur : N   (* what the static checks of Validate see: 0 = amount in OLT and a well-formed (hexadecimal) proposal id;
+                 1..3 = the amount names another registered currency / an unknown name / the empty string;
+                 4 = malformed proposal id (since /repo 76734a6 an id must be 64 hexadecimal characters) *) }.
 
 (* ---- small helpers ---- *)
 Definition bal (s : state) (a : N) : Z := default 0 (g_bal s !! a).
